@@ -30,7 +30,7 @@ REPORT = [['-L'], ['-l'], ['-OLIST', 'out.lst'], ['-u', '-L'], ['-C', '-L'], ['-
           ['-x'], ['-x', '-x'], ['-n'], ['-A'], ['-r'], ['-E', 'err.log'], ['-gnuerrors'],
           ['-LISTRADIX', '2', '-L'], ['-LISTRADIX', '8', '-L'], ['-LISTRADIX', '10', '-L'], ['-LISTRADIX', '36', '-L'], ['-P'], ['-M'], ['-h', '-L'], ['-SPLITBYTE', '.', '-L'],
           ['-u'], ['-C'], ['-s'], ['-I'], ['-t', '255']]
-ENVDEV = ['carrier:ASCMD', 'carrier:keyfile', 'cwd:other', 'opath', 'lang:de_DE', 'lang:en_US', 'LANG:de_DE.UTF-8', 'noq']
+ENVDEV = ['carrier:ASCMD', 'carrier:keyfile', 'carrier:keyfile-nonl', 'carrier:keyfile-oneline', 'cwd:other', 'opath', 'lang:de_DE', 'lang:en_US', 'LANG:de_DE.UTF-8', 'noq']
 NO_Q_OK = True
 
 GEN = {
@@ -42,6 +42,7 @@ GEN = {
     'g_phase': '\tcpu z80\n\torg 100h\n\tphase 8000h\nl1:\tjp l1\n\tdephase\nl2:\tjp l2\n\tsegment io\n\torg 10h\np:\tdb ?\n',
     'g_struct': '\tcpu 8086\nrec\tstruct\na\tdb ?\nb\tdw ?\nrec\tendstruct\ninst\trec\n\tdw rec_len,inst_b\n',
     'g_warn': '\tcpu 8080\n\twarning "w"\n\tdb 1\n\tmessage "m"\n',
+    'g_define': '\tcpu 8080\n\tifdef MODE\n\tdb MODE\n\telse\n\tdb 0\n\tendif\n',
 }
 
 
@@ -98,7 +99,7 @@ def setup(t, sub='src'):
 
 
 def flags_of(t):
-    return corpus.flags(t) if t not in GEN else []
+    return corpus.flags(t) if t not in GEN else (['-D', 'MODE=2'] if t == 'g_define' else [])
 
 
 def runcfg(t, devl):
@@ -130,28 +131,34 @@ def runcfg(t, devl):
             env['LANG'] = v.split(':')[1]
         elif v == 'noq':
             quiet = []
-    base = flags_of(t) + quiet + ['-i', corpus.incdir()]
-    args = list(base)
+    allopts = flags_of(t) + quiet + ['-i', corpus.incdir()]
     if ('env', 'opath') in [tuple(x) for x in devl]:
-        args += ['-o', out]
+        allopts += ['-o', out]
+    allopts += opts
+    # the carrier transports EVERY option (code-affecting ones included): the place an option is given must not matter
     if carrier == 'argv':
-        args += opts
+        args = allopts
     elif carrier == 'ASCMD':
-        env['ASCMD'] = ' '.join(opts)
+        env['ASCMD'] = ' '.join(allopts)
+        args = []
     else:
-        core.put('src/keys.txt' if cwd == d else 'keys.txt', '\n'.join(' '.join(o for o in opts[i:i + 1]) for i in range(len(opts))) + '\n')
-        # key file: one option (with its argument) per line
         lines = []
         i = 0
-        while i < len(opts):
-            if i + 1 < len(opts) and not opts[i + 1].startswith('-'):
-                lines.append(opts[i] + ' ' + opts[i + 1])
+        while i < len(allopts):
+            if i + 1 < len(allopts) and not allopts[i + 1].startswith('-'):
+                lines.append(allopts[i] + ' ' + allopts[i + 1])
                 i += 2
             else:
-                lines.append(opts[i])
+                lines.append(allopts[i])
                 i += 1
-        core.put(('src/' if cwd == d else '') + 'keys.txt', '\n'.join(lines) + '\n')
-        args += ['@keys.txt']
+        if carrier == 'keyfile-oneline':
+            text = ' '.join(lines) + '\n'
+        elif carrier == 'keyfile-nonl':
+            text = '\n'.join(lines)
+        else:
+            text = '\n'.join(lines) + '\n'
+        core.put(('src/' if cwd == d else '') + 'keys.txt', text)
+        args = ['@keys.txt']
     o = core.run('asl', args + [src], cwd=cwd, env=env, timeout=120)
     p = None
     try:
